@@ -1,29 +1,33 @@
 (* CacheRbasex.v — state machine of the caches of abel/rbasex.py: globals
    _prm, _weights, _dst, _ibs, _ibs_prm (function _profiles, _get_image_bs) and
-   _bs_prm, _bs, _trf, _tri_full, _tri_prm, _tri (get_bs_cached, _load_bs,
-   _save_bs), cache_cleanup, basis_dir_cleanup.
+   _bs_prm, _bs, _trf, _tri_full, _tri_prm, _tri, _mask_key (get_bs_cached,
+   _load_bs, _save_bs), cache_cleanup, basis_dir_cleanup.
 
    What the model takes as INPUT of a call (observed by the harness from a
    fresh run of the same call, because they are computed by
    abel.tools.vmi.Distributions, which is not modelled):
      pid     number of the value [IM.shape, origin, rmax, order, odd] (==)
-     wid     identity of the weights object (0 = None)
-     wver    version of the content of that object (in-place changes)
-     fail    0: Distributions works; 1: its constructor raises ValueError;
-             2: constructor works, the precalculation at first use raises
+     wid     identity of the weights object (0 = None; no longer relevant)
+     wver    number of the CONTENT of the weights (0 = None)
+     fail    0: Distributions works; 1 / 2: its constructor / its
+             precalculation at first use raises ValueError
      rmax, vid   _dst.rmax and the number of the content of _dst.valid
      geom    (height, width, row) handed to _image, or None for out=None
-   Assumption (stated in the theorems as `consistent`): pid and the weights
-   content determine fail, rmax and vid.
+   Assumption (in `hazard`, clause "inconsistent"): pid and the weights content
+   determine rmax and vid.
 
    Symbolic contents: the projected basis P[n][R, r] depends on (n, R, r)
    only (_bs_rbasex), its triangular inverse likewise (leading block of a
    triangular inverse), so a basis / inverse is described by the (Rmax,
    order, odd) it presently covers, whatever larger file it was cut from.
 
-   Order of assignments (part of the model): _prm, _weights before
-   Distributions(...) is built and used; _bs_prm before _load_bs;
-   _tri_prm before the regularisation branch can raise.  No proofs here. *)
+   Order of assignments (part of the model), after the fixes d536a3f, a36fe34,
+   2e99c37, 7ce4ac5, 5c177c1: _prm, _weights (a copy, compared by content) and
+   _dst are assigned together after Distributions(...) was built AND used;
+   _bs_prm after _load_bs returned; _tri_prm after the regularisation branch;
+   _trf / _tri are reset when the validity mask differs from _mask_key; a
+   loaded array must have the shape its file name promises; the image basis
+   is keyed by its geometry.  No proofs here. *)
 From Coq Require Import List Arith Bool.
 From PA Require Import base.Npy model.CacheCommon.
 Import ListNotations.
@@ -68,12 +72,13 @@ Record st := {
   trf : option acont;
   tri_prm : option nat;
   tri : option acont;
+  mkey : nat;                                        (* _mask_key: 0 = None (no masking) *)
   gdir : bdglobal;
   dk : disk fkey fcont }.
 
 Definition init : st :=
   {| prm := None; wobj := 0; dst := DNone; ibs := None; bs_prm := None; bs := None;
-     tri_full := None; trf := None; tri_prm := None; tri := None; gdir := GUnset; dk := [] |}.
+     tri_full := None; trf := None; tri_prm := None; tri := None; mkey := 0; gdir := GUnset; dk := [] |}.
 
 Inductive csel := CAll | CFwd | CInv.
 
@@ -107,7 +112,7 @@ Definition set_profiles (s : st) (p : option nat) (w : nat) (d : dstate) (i : op
   {| prm := p; wobj := w; dst := d; ibs := i; bs_prm := bs_prm s; bs := bs s; tri_full := tri_full s;
      trf := if reset_tr then None else trf s;
      tri_prm := if reset_tr then None else tri_prm s;
-     tri := if reset_tr then None else tri s; gdir := gdir s; dk := dk s |}.
+     tri := if reset_tr then None else tri s; mkey := mkey s; gdir := gdir s; dk := dk s |}.
 
 Definition dst_vid (d : dstate) : option nat :=
   match d with DOk _ _ _ _ v => Some v | _ => None end.
@@ -119,24 +124,24 @@ Definition opt_eqb (a b : option nat) : bool :=
    (pid, wver, rmax, vid) of the Distributions object used *)
 Definition profiles (s : st) (c : call) : st * res (nat * nat * nat * nat) :=
   match dst s with
-  | DHalf => (s, Raise EAttr)                        (* old_valid = _dst.valid *)
+  | DHalf => (s, Raise EAttr)                        (* (unreachable since d536a3f) *)
   | _ =>
       let old_valid := dst_vid (dst s) in
-      let same := opt_eqb (prm s) (Some (c_pid c)) && (wobj s =? c_wid c) in
+      (* `_prm != prm or not same_weights`: weights compared by content *)
+      let same := opt_eqb (prm s) (Some (c_pid c)) && (wobj s =? c_wver c) in
       if same then
         match dst s with
         | DOk p w v r vid => (s, Ret (p, v, r, vid))
-        | _ => (s, Raise EOther)                     (* _prm set but no object: None(IM), TypeError *)
+        | _ => (s, Raise EOther)
         end
       else
         match c_fail c with
-        | 1 => (set_profiles s (Some (c_pid c)) (c_wid c) (dst s) (ibs s) false, Raise EValue)
-        | 2 => (set_profiles s (Some (c_pid c)) (c_wid c) DHalf None false, Raise EValue)
-        | _ =>
+        | 0 =>
             let d := DOk (c_pid c) (c_wid c) (c_wver c) (c_rmax c) (c_vid c) in
             let reset := negb (opt_eqb (Some (c_vid c)) old_valid) in
-            (set_profiles s (Some (c_pid c)) (c_wid c) d None reset,
+            (set_profiles s (Some (c_pid c)) (c_wver c) d None reset,
              Ret (c_pid c, c_wver c, c_rmax c, c_vid c))
+        | _ => (s, Raise EValue)                     (* nothing was assigned *)
         end
   end.
 
@@ -180,10 +185,7 @@ Definition load_bs (dir : option nat) (rmax order : nat) (odd inv : bool) (listi
           | None => LNone
           | Some (FBad PValue) => LNone
           | Some (FBad e) => LRaise (load_exc e)
-          | Some FShape =>
-              (* junk of the shape the NAME promises for half its Rmax, cut like a good file *)
-              let j := {| r_rmax := Nat.min rmax (Nat.div2 (fk_rmax k)); r_order := order; r_odd := odd; r_junk := true |} in
-              LSome j (if fk_inv k && inv then Some j else None)
+          | Some FShape => LNone                       (* shape check: (None, None) *)
           | Some (FGood f) =>
               (* parity pick, order crop, Rmax crop give the requested basis *)
               let b := {| r_rmax := rmax; r_order := order; r_odd := odd; r_junk := r_junk (f_c f) |} in
@@ -196,7 +198,14 @@ Definition load_bs (dir : option nat) (rmax order : nat) (odd inv : bool) (listi
 Definition upd (s : st) (bp : option (nat * nat * bool)) (b t : option rcont) (f : option acont)
            (tp : option nat) (ti : option acont) (g : bdglobal) (d : disk fkey fcont) : st :=
   {| prm := prm s; wobj := wobj s; dst := dst s; ibs := ibs s; bs_prm := bp; bs := b; tri_full := t;
-     trf := f; tri_prm := tp; tri := ti; gdir := g; dk := d |}.
+     trf := f; tri_prm := tp; tri := ti; mkey := mkey s; gdir := g; dk := d |}.
+
+(* `if _mask_key != mask_key: _mask_key = mask_key; _trf = None; _tri_prm = None; _tri = None` *)
+Definition set_mask (s : st) (m : nat) : st :=
+  if mkey s =? m then s
+  else {| prm := prm s; wobj := wobj s; dst := dst s; ibs := ibs s; bs_prm := bs_prm s; bs := bs s;
+          tri_full := tri_full s; trf := None; tri_prm := None; tri := None; mkey := m;
+          gdir := gdir s; dk := dk s |}.
 
 Definition prm_eqb (a : option (nat * nat * bool)) (rmax order : nat) (odd : bool) : bool :=
   match a with
@@ -224,7 +233,7 @@ Definition stage1 (s : st) (rmax order : nat) (odd fwd : bool) (reg : nat) (list
   let bp := Some (rmax, order, odd) in
   if need then
     match load_bs dir rmax order odd (negb fwd && (reg =? 0)) listing (dk s) with
-    | LRaise e => (upd s bp (bs s) (tri_full s) (trf s) (tri_prm s) (tri s) g (dk s), false, Some e)
+    | LRaise e => (upd s (bs_prm s) (bs s) (tri_full s) (trf s) (tri_prm s) (tri s) g (dk s), false, Some e)
     | LSome b t => (upd s bp (Some b) t None None None g (dk s), false, None)
     | LNone => (upd s bp (Some (ideal rmax order odd)) None None None None g (dk s), true, None)
     end
@@ -235,23 +244,24 @@ Definition stage2 (s1 : st) (new_bs : bool) (b : rcont) (rmax reg order : nat) (
            (g : bdglobal) : st * bool * option exc :=
   if opt_eqb (tri_prm s1) (Some reg) then (s1, new_bs, None)
   else
-    let s2 := upd s1 (bs_prm s1) (bs s1) (tri_full s1) (trf s1) (Some reg) (tri s1) g (dk s1) in
+    (* _tri_prm = None now, = [reg] only after the branch below succeeded *)
+    let s2 := upd s1 (bs_prm s1) (bs s1) (tri_full s1) (trf s1) None (tri s1) g (dk s1) in
     if reg_raises reg order odd then (s2, new_bs, Some EValue)
-    (* np.eye(Rmax + 1) / diag([..] * (Rmax + 1)) meet matrices of another size
-       (only possible with a basis left under a wrong key) *)
+    (* np.eye(Rmax + 1) / diag([..] * (Rmax + 1)) / a mask meet matrices of
+       another size (unreachable since d536a3f) *)
     else if negb (r_rmax b =? rmax) &&
-            (negb (vid =? 0) ||       (* a mask of another length indexes the matrices *)
+            (negb (vid =? 0) ||
              ((reg =? 0) && match tri_full s2 with None => true | Some _ => false end) ||
              (reg =? 2) || (reg =? 3))
     then (s2, new_bs, Some EShape)
     else if reg =? 0 then
       match tri_full s2 with
-      | Some t => (upd s2 (bs_prm s2) (bs s2) (tri_full s2) (trf s2) (tri_prm s2)
+      | Some t => (upd s2 (bs_prm s2) (bs s2) (tri_full s2) (trf s2) (Some reg)
                        (Some (AInv 0 t vid)) g (dk s2), new_bs, None)
-      | None => (upd s2 (bs_prm s2) (bs s2) (Some b) (trf s2) (tri_prm s2)
+      | None => (upd s2 (bs_prm s2) (bs s2) (Some b) (trf s2) (Some reg)
                      (Some (AInv 0 b vid)) g (dk s2), true, None)
       end
-    else (upd s2 (bs_prm s2) (bs s2) (tri_full s2) (trf s2) (tri_prm s2)
+    else (upd s2 (bs_prm s2) (bs s2) (tri_full s2) (trf s2) (Some reg)
               (Some (AInv reg b vid)) g (dk s2), new_bs, None).
 
 (* what follows stage 1 *)
@@ -298,6 +308,7 @@ Definition get_bs (s : st) (rmax order : nat) (odd fwd : bool) (reg vid : nat) (
   match stage1 s rmax order odd fwd reg listing g dir with
   | (s1, _, Some e) => (s1, Raise e)
   | (s1, new_bs, None) =>
+      let s1 := set_mask s1 vid in
       match bs s1 with
       | None => (s1, Raise EOther)
       | Some b => finish_bs s1 new_bs b rmax order odd fwd reg vid g dir
@@ -360,7 +371,7 @@ Definition step (s : st) (o : op) : st * res rres :=
           tri_full := if i then None else tri_full s;
           trf := if f then None else trf s;
           tri_prm := if i then None else tri_prm s; tri := if i then None else tri s;
-          gdir := gdir s; dk := dk s |}, Raise EOther)
+          mkey := mkey s; gdir := gdir s; dk := dk s |}, Raise EOther)
   | DirCleanup bd =>
       let (g, dir) := resolve (gdir s) bd in
       (upd s (bs_prm s) (bs s) (tri_full s) (trf s) (tri_prm s) (tri s) g
@@ -445,7 +456,7 @@ Record obs := {
   o_prm : list nat; o_dst : nat;                     (* 0 None, 1 half-built, 2 usable *)
   o_ibs : bool;
   o_bs_prm : list nat; o_nbs : list nat; o_has_tri_full : bool; o_has_trf : bool;
-  o_tri_prm : list nat; o_gdir : nat; o_files : list (list nat) }.
+  o_tri_prm : list nat; o_mkey : nat; o_gdir : nat; o_files : list (list nat) }.
 
 Definition is_call (o : op) : bool := match o with Call _ | GetBs _ _ _ _ _ _ _ _ => true | _ => false end.
 
@@ -478,6 +489,7 @@ Definition observe (o : op) (s' : st) (r : res rres) : obs :=
      o_has_tri_full := match tri_full s' with Some _ => true | None => false end;
      o_has_trf := match trf s' with Some _ => true | None => false end;
      o_tri_prm := match tri_prm s' with Some r => [r] | None => [] end;
+     o_mkey := mkey s';
      o_gdir := bdglobal_code (gdir s');
      o_files := listing s' |}.
 
@@ -495,7 +507,8 @@ Definition obs_eqb (loose : bool) (a b : obs) : bool :=
   (if loose then true else eqb (o_ibs a) (o_ibs b)) &&
   list_eqb (o_bs_prm a) (o_bs_prm b) && list_eqb (o_nbs a) (o_nbs b) &&
   eqb (o_has_tri_full a) (o_has_tri_full b) && eqb (o_has_trf a) (o_has_trf b) &&
-  list_eqb (o_tri_prm a) (o_tri_prm b) && (o_gdir a =? o_gdir b) && lists_eqb (o_files a) (o_files b).
+  list_eqb (o_tri_prm a) (o_tri_prm b) && (o_mkey a =? o_mkey b) && (o_gdir a =? o_gdir b) &&
+  lists_eqb (o_files a) (o_files b).
 
 Fixpoint check_hist (s : st) (h : list (op * obs)) : list bool :=
   match h with
@@ -512,6 +525,13 @@ Fixpoint trace_hist (s : st) (h : list op) : list obs :=
 
 Definition last_result (ops : list op) (c : op) : res rres := snd (step (run init ops) c).
 
+Fixpoint all_safe (s : st) (ops : list op) : bool :=
+  match ops with
+  | [] => true
+  | o :: r => let (s', res) := step s o in
+              (if is_call o then out_eqv res (fresh o) || (0 <? res_code res) else true) && all_safe s' r
+  end.
+
 Fixpoint all_agree (s : st) (ops : list op) : bool :=
   match ops with
   | [] => true
@@ -519,7 +539,7 @@ Fixpoint all_agree (s : st) (ops : list op) : bool :=
               (if is_call o then out_eqv res (fresh o) else true) && all_agree s' r
   end.
 
-(* ---- hazards: the program paths behind the recorded findings ------------------------------ *)
+(* ---- preconditions ---------------------------------------------------------------------- *)
 Definition uses_bad_dir (s : st) (bd : bdarg) : bool :=
   match snd (resolve (gdir s) bd) with Some di => negb (dir_writable di) | None => false end.
 
@@ -527,27 +547,27 @@ Definition fcont_honest (k : fkey) (f : fcont) : bool :=
   rcont_eqb (f_c f) (ideal (fk_rmax k) (fk_order k) (fk_odd k)) && eqb (f_inv f) (fk_inv k).
 
 Definition reuses_dst (s : st) (c : call) : bool :=
-  opt_eqb (prm s) (Some (c_pid c)) && (wobj s =? c_wid c).
+  opt_eqb (prm s) (Some (c_pid c)) && (wobj s =? c_wver c).
 
+(* assumptions about the environment and about the model inputs, not defects:
+   writable directories; good files on disk are what a save of their name
+   writes; and the same parameters with the same weights content give the same
+   rmax and valid mask, and do not fail once they worked (these are computed
+   by Distributions: clause "inconsistent") *)
 Definition hazard (s : st) (o : op) : bool :=
   match o with
   | Call c =>
-      negb (c_fail c =? 0) ||                       (* Distributions raises: _prm without usable _dst *)
-      reg_raises (c_reg c) (c_order c) (c_odd c) || (* _tri_prm assigned, then ValueError *)
-      uses_bad_dir s (c_bd c) ||                    (* listdir / save raise after _bs_prm was assigned *)
-      (* the cached Distributions object is reused although the weights content
-         changed (or, against the consistency assumption, rmax / valid differ) *)
+      uses_bad_dir s (c_bd c) ||
       (reuses_dst s c &&
        negb (match dst s with
-             | DOk _ _ v r vid => (v =? c_wver c) && (r =? c_rmax c) && (vid =? c_vid c)
+             | DOk _ _ _ r vid => (r =? c_rmax c) && (vid =? c_vid c) && (c_fail c =? 0)
              | _ => false
              end))
-  | GetBs _ _ _ _ _ _ _ _ => true    (* _trf / _tri are not keyed by `valid`: see accessor_mask_refuted *)
+  | GetBs _ _ _ _ _ _ bd _ => uses_bad_dir s bd
   | Seed d k c =>
       match c with
-      | FShape => true
       | FGood f => negb (fcont_honest k f)
-      | FBad _ => false
+      | _ => false
       end
   | _ => false
   end.
